@@ -84,6 +84,11 @@ def gen_config(rng):
         "twin": True,
         "faults": rng.random() >= 0.4,
     }
+    if rng.random() < 0.25:
+        # projected coordinates (UTM like): neighbouring points are "equal" for np.allclose
+        off = [rng.choice([4.5e5, 5.6e6, 1.2e5]) for _ in range(dim)]
+        cfg["axes"] = [[round(v + o, 2) for v in a] for a, o in zip(cfg["axes"], off)]
+        cfg["offset"] = off
     if cm.is_slow(model) and kind != "Fourier":
         cfg["twin"] = model["nugget"] > 0 or rng.random() < 0.3
         cfg["n_ops"] = min(cfg["n_ops"], 8)
@@ -153,6 +158,9 @@ class Machine:
         self.undo = []
         self.last = None  # description of the last requested positions
         self.vector = self.spec["gen"]["kind"] == "IncomprRandMeth"
+        # phases k*x lose ~1e-16*|x| absolute precision and BLAS may round the isometrisation
+        # of n points differently for different n: scale the tolerance with the coordinates
+        self.tol = 1e-10 if not config.get("offset") else 1e-6
         self.allow_lin = not self.vector
         self.poisoned = False
 
@@ -273,7 +281,24 @@ class Machine:
             choices += ["period", "period", "mode_no"]
         if kind == "IncomprRandMeth":
             choices.append("mean_u")
+        choices.append("update")
         p = rng.choice(choices)
+        if p == "update":
+            args = {"model": rng.random() < 0.6}
+            if rng.random() < 0.4:
+                args["seed"] = self.spec["seed"] if rng.random() < 0.3 else rng.choice(SEEDS)
+            if kind == "Fourier":
+                cur = self.spec["gen"]
+                if rng.random() < 0.6:
+                    args["period"] = list(cur["period"]) if rng.random() < 0.3 else \
+                        [rng.choice([8.0, 10.0, 12.5, 20.0]) for _ in range(self.dim)]
+                if rng.random() < 0.6:
+                    args["mode_no"] = list(cur["mode_no"]) if rng.random() < 0.5 else \
+                        [rng.choice([4, 6, 8]) for _ in range(self.dim)]
+            if len(args) == 1 and not args["model"]:
+                args["seed"] = rng.choice(SEEDS)
+            return {"op": "gen_set", "param": "update", "value": args,
+                    "obj": rng.choice(["same", "distinct", "np"])}
         if p in ("seed_attr", "reset_seed", "update_seed"):
             v = self.spec["seed"] if rng.random() < 0.3 else rng.choice(SEEDS)
             return {"op": "gen_set", "param": p, "value": v,
@@ -410,6 +435,32 @@ class Machine:
             raise Inapplicable("period")
         if p == "mean_u" and kind != "IncomprRandMeth":
             raise Inapplicable("mean_u")
+        if p == "update":
+            a = dict(v)
+            if kind != "Fourier" and ("period" in a or "mode_no" in a):
+                raise Inapplicable("period / mode_no are Fourier arguments of update()")
+            for k in ("period", "mode_no"):
+                if k in a and len(a[k]) != self.dim:
+                    raise Inapplicable("per-axis list length")
+            for s in self.sides():
+                kw = {}
+                if a.get("model"):
+                    kw["model"] = s.srf.model
+                if a.get("seed") is not None:
+                    kw["seed"] = self._seed_obj(s, a["seed"], op["obj"])
+                for k in ("period", "mode_no"):
+                    if k in a:
+                        kw[k] = list(a[k])
+                if not kw:
+                    raise Inapplicable("empty update")
+                s.srf.generator.update(**kw)
+            if a.get("seed") is not None:
+                self.spec["seed"] = a["seed"]
+            for k in ("period", "mode_no"):
+                if k in a:
+                    self.spec["gen"][k] = list(a[k])
+            self.ctx.probe("gen.update_combo")
+            return
         for s in self.sides():
             g = s.srf.generator
             if p == "seed_attr":
@@ -599,12 +650,12 @@ class Machine:
             self.ctx.note("gen", res)
             if self.twin:
                 tres = results[1][0]
-                if not close(res, tres):
+                if not close(res, tres, rtol=self.tol):
                     raise Violation("C11.twin_equal", layout=lay, nugget=nug,
                                     maxdiff=maxdiff(res, tres), seed=seed_arg)
             if not nug:
                 exp = self._expected(kind, what, post, exp_desc)
-                if not close(res, exp):
+                if not close(res, exp, rtol=self.tol):
                     raise Violation("C11.pure_of_location", layout=lay, via=op.get("via"),
                                     maxdiff=maxdiff(res, exp), seed=seed_arg,
                                     gen=self.spec["gen"]["kind"])
